@@ -805,6 +805,20 @@ func runC08(cx *CheckCtx) {
 			cx.decide(okB, "retention", "netmap.UpdateSnapshotCount/drop-range", "drops the epochs cur−old+1 … cur−new (inclusive), i.e. exactly those NewEpoch would have dropped with the new count",
 				"the drop loop does not cover [cur−old+1, cur−new]:"+detail+" — NewEpoch keeps epochs (e−N, e], so an epoch outside the new window stays readable for ever (or a retained one is dropped)", drop.Where(w))
 			_ = keepLower
+			// the drop loop is reached on every normal path, unless nothing falls out of the window (new ≥ old)
+			okAlways := false
+			whyA := "the drop is not in a loop"
+			if hdr := innermostLoop(drop.Instr.Block()); hdr != nil && old != nil {
+				okAlways, whyA = true, ""
+				for _, sk := range a.skipEdges(drop.Ctx, hdr, nil) {
+					if a.holdsAt(sk.St, -a.litLt(count, old)) {
+						continue
+					}
+					okAlways = false
+					whyA = "a normal path goes round the drop loop (at " + blockPos(w, sk.From) + ") although the window shrinks"
+				}
+			}
+			cx.decide(okAlways, "retention", "netmap.UpdateSnapshotCount/drop-always", "every normal path on which the window shrinks runs the drop loop", "UpdateSnapshotCount can shrink the window without dropping the per-epoch lists that fall out of it: "+whyA+"; listNodes(e) keeps answering for epochs older than the window", drop.Where(w))
 			// the ring index stays inside the ring: at every exit the stored snapshotCurrent is
 			// < the new count (necessary for the next tick and for Snapshot to address a stored slot)
 			var curPut *Site
